@@ -64,7 +64,7 @@ SPEC = {
     "coq_targets": ["Props/C18.vo", "Extract/ExC18.vo"],
     "bin": "c18",
     # --n = total number of next_timestamp calls made on real generators
-    "sizes": {"quick": 2000000, "thorough": 100000000},
+    "sizes": {"quick": 2000000, "thorough": 60000000},
     "search_n": 6000000,
     "post": post,
     "extra_coverage": extra_coverage,
